@@ -6,6 +6,8 @@ import (
 	"go/token"
 	"go/types"
 	"strings"
+
+	"golang.org/x/tools/go/cfg"
 )
 
 func init() {
@@ -33,6 +35,65 @@ func failureReaches(fl *Flow, callPt Pt, goal func(ast.Node) bool) bool {
 	// find the condition node following the call in the same block with two successors
 	b := callPt.B
 	everything := func() bool { return fl.Reach([]Pt{After(callPt)}, goal, nil).Found }
+	// the error of the step has a variable of its own (assigned exactly once in the function): wherever it is tested,
+	// a failure takes the `!= nil` side. `encodeErr := enc.Encode(…); closeErr := f.Close(); if encodeErr != nil {…}; if closeErr != nil {…}`
+	if as, isAs := fl.node(callPt).(*ast.AssignStmt); isAs && len(as.Rhs) == 1 {
+		info := fl.F.Pkg.TypesInfo
+		var ev types.Object
+		for _, l := range as.Lhs {
+			if o := identObj(info, l); o != nil && types.TypeString(o.Type(), nil) == "error" {
+				ev = o
+			}
+		}
+		if ev != nil {
+			nDef := 0
+			ast.Inspect(fl.F.Body(), func(x ast.Node) bool {
+				switch s := x.(type) {
+				case *ast.AssignStmt:
+					for _, l := range s.Lhs {
+						if identObj(info, l) == ev {
+							nDef++
+						}
+					}
+				case *ast.UnaryExpr:
+					if s.Op == token.AND && identObj(info, s.X) == ev {
+						nDef += 2
+					}
+				}
+				return true
+			})
+			if nDef == 1 {
+				saved := fl.EdgeOK
+				fl.EdgeOK = func(bb *cfg.Block, succ int) bool {
+					if saved != nil && !saved(bb, succ) {
+						return false
+					}
+					if len(bb.Succs) != 2 || len(bb.Nodes) == 0 {
+						return true
+					}
+					c, ok := bb.Nodes[len(bb.Nodes)-1].(*ast.BinaryExpr)
+					if !ok || (c.Op != token.NEQ && c.Op != token.EQL) {
+						return true
+					}
+					x, y := ast.Unparen(c.X), ast.Unparen(c.Y)
+					if types.ExprString(x) == "nil" {
+						x, y = y, x
+					}
+					if types.ExprString(y) != "nil" || identObj(info, x) != ev {
+						return true
+					}
+					// the step failed: ev != nil
+					if c.Op == token.NEQ {
+						return succ == 0
+					}
+					return succ == 1
+				}
+				found := fl.Reach([]Pt{After(callPt)}, goal, nil).Found
+				fl.EdgeOK = saved
+				return found
+			}
+		}
+	}
 	if len(b.Succs) != 2 || len(b.Nodes) == 0 {
 		return everything() // the error of this call is not tested at the end of its block: its failure flows on
 	}
@@ -104,7 +165,7 @@ func ruleC12(p *Prog, r *Res) {
 		stateFn := p.Field("manager", "Manager", "stateFilename")
 		isRemove := func(n ast.Node) bool {
 			return nodeCalls(p, f, n, func(fn *types.Func, c *ast.CallExpr) bool {
-				return fn.FullName() == "os.Remove" && len(c.Args) == 1 && isFieldOf(info, c.Args[0], stateFn)
+				return fn.FullName() == "os.Remove" && len(c.Args) == 1 && (isFieldOf(info, c.Args[0], stateFn) || mentionsCopyOf(info, f, c.Args[0], stateFn))
 			})
 		}
 		// a package-local helper that performs the step and hands its failure back (error-accumulation idiom)
